@@ -39,6 +39,9 @@ func debugMain(repo string, args []string) {
 		for _, r := range p.Renames {
 			fmt.Println(r)
 		}
+		for _, r := range p.Inlined {
+			fmt.Println(r)
+		}
 	case "funcs":
 		for _, f := range p.Funcs {
 			fmt.Println(p.fnKey(f), p.pos(f.Pos()))
